@@ -2,6 +2,7 @@ package cosmos
 
 import (
 	"fmt"
+	stdmath "math"
 	"math/big"
 
 	errorsmod "cosmossdk.io/errors"
@@ -92,30 +93,33 @@ func (mpd MinGasPriceDecorator) AnteHandle(ctx sdk.Context, tx sdk.Tx, simulate 
 			requiredFees)
 	}
 
-	// What a transaction is charged can be less than what it declares: with the dynamic-fee extension option the fee
-	// checker deducts min(baseFee + tip, fee/gas) x gas. The floor is about what is paid, so the charged amount has to
-	// reach it as well (as the Ethereum route checks the effective price, not the fee cap).
-	if hasExtOptsTx, ok := tx.(authante.HasExtensionOptionsTx); ok && gas > 0 {
-		for _, opt := range hasExtOptsTx.GetExtensionOptions() {
-			extOpt, ok := opt.GetCachedValue().(*haqqtypes.ExtensionOptionDynamicFeeTx)
-			if !ok {
-				continue
+	// What a transaction is charged can be less than what it declares: with a base fee in force the fee checker deducts
+	// min(baseFee + tip, fee/gas) x gas, where the tip comes from the first dynamic-fee extension option (unbounded
+	// without one) and fee/gas is rounded down. The floor is about what is paid, so the charged amount has to reach it
+	// as well (as the Ethereum route checks the effective price, not the fee cap). Genesis transactions are charged
+	// what they declare.
+	ethCfg := evmParams.ChainConfig.EthereumConfig(mpd.evmKeeper.ChainID())
+	if baseFee := mpd.evmKeeper.GetBaseFee(ctx, ethCfg); baseFee != nil && gas > 0 && ctx.BlockHeight() != 0 {
+		maxPriorityPrice := math.NewInt(stdmath.MaxInt64)
+		if hasExtOptsTx, ok := tx.(authante.HasExtensionOptionsTx); ok {
+			for _, opt := range hasExtOptsTx.GetExtensionOptions() {
+				if extOpt, ok := opt.GetCachedValue().(*haqqtypes.ExtensionOptionDynamicFeeTx); ok {
+					maxPriorityPrice = extOpt.MaxPriorityPrice
+					break
+				}
 			}
-			ethCfg := evmParams.ChainConfig.EthereumConfig(mpd.evmKeeper.ChainID())
-			baseFee := mpd.evmKeeper.GetBaseFee(ctx, ethCfg)
-			if baseFee == nil || extOpt.MaxPriorityPrice.IsNil() || extOpt.MaxPriorityPrice.IsNegative() {
-				break
-			}
+		}
+		// a missing or negative priority price is refused by the fee checker itself
+		if !maxPriorityPrice.IsNil() && !maxPriorityPrice.IsNegative() {
 			gasInt := math.NewIntFromUint64(gas)
 			feeCap := feeCoins.AmountOfNoDenomValidation(evmDenom).Quo(gasInt)
-			effectivePrice := math.NewIntFromBigInt(evmtypes.EffectiveGasPrice(baseFee, feeCap.BigInt(), extOpt.MaxPriorityPrice.BigInt()))
+			effectivePrice := math.NewIntFromBigInt(evmtypes.EffectiveGasPrice(baseFee, feeCap.BigInt(), maxPriorityPrice.BigInt()))
 			charged := sdk.Coins{{Denom: evmDenom, Amount: effectivePrice.Mul(gasInt)}}
 			if required := requiredFees.AmountOf(evmDenom); required.IsPositive() && charged.AmountOfNoDenomValidation(evmDenom).LT(required) {
 				return ctx, errorsmod.Wrapf(errortypes.ErrInsufficientFee,
-					"the fee charged at the effective gas price (%s) < minimum global fee (%s). Please increase the priority price.",
+					"the fee charged at the effective gas price (%s) < minimum global fee (%s). Please increase the gas price or the priority price.",
 					charged, requiredFees)
 			}
-			break
 		}
 	}
 
